@@ -83,6 +83,8 @@ def c01(rec, tier):
     f9_casts.run_vm(rec, F)
     T = f1_isa.run_tables(rec, F)
     f1_isa.run_jumps(rec, F, T)
+    # every jump lands where the compiler meant only if len() is what the encoder writes
+    f1_isa.run_width(rec, F, T)
     # `==`/`!=` are Value equality: IEEE on numbers (0 == -0, NaN != NaN), nothing else mixed in
     f10_parity.run_number_equality(rec, F, "unboxed")
     # every compiled expression passes through the peephole pass
